@@ -3,7 +3,7 @@
   it.  Plain `mutual` inductives with their own list / option types so that the evaluator can be
   defined by structural recursion (no well-founded recursion, no `partial`).
 -/
-import GV.Eval.Val
+import GV.Eval.MathIR
 namespace GV.Eval
 
 /-- SourceCode: 1-based line, 0-based column of the construct's first token. -/
